@@ -63,7 +63,7 @@ theorem C10_replay_idempotent (s : Schema) (cs : List Change) (k : FKey) :
     of `m`, no sequence of restarts of any kind brings one back. -/
 theorem C10_dropped_stays (st : PState) (h : PInv st) (m : String)
     (hm : hasMeas st.mem m = false) (ops : List Op10)
-    (hops : ∀ o ∈ ops, o = .reopen ∨ o = .crash ∨ (∃ p, o = .crashInClose p) ∨ o = .look) :
+    (hops : ∀ o ∈ ops, o = .reopen ∨ o = .crash ∨ (∃ p, o = .crashInClose p) ∨ (∃ p, o = .crashInOpen p) ∨ o = .look) :
     hasMeas (run st ops).mem m = false := by
   induction ops generalizing st with
   | nil => exact hm
@@ -73,9 +73,10 @@ theorem C10_dropped_stays (st : PState) (h : PInv st) (m : String)
     obtain ⟨_, h2, h3⟩ := step_ok _ st o h hR
     apply ih _ h2 _ (fun o' ho' => hops o' (List.mem_cons_of_mem _ ho'))
     apply h3.dropped
-    rcases hops o List.mem_cons_self with rfl | rfl | ⟨p, rfl⟩ | rfl
+    rcases hops o List.mem_cons_self with rfl | rfl | ⟨p, rfl⟩ | ⟨p, rfl⟩ | rfl
     · simp only [step10, reopened]; split <;> simp [stepFails]
     · simp only [step10, reopened]; split <;> simp [stepFails]
+    · simp only [step10, reopened]; split <;> split <;> simp [stepFails]
     · simp only [step10, reopened]; split <;> split <;> simp [stepFails]
     · simp [step10, stepFails]
 
